@@ -220,6 +220,12 @@ func (cli *Client) EnrollContext(c net.Conn, ctx any) (Conn, error) {
 	if e != nil {
 		return nil, e
 	}
+	var gc *conn
+	defer func() {
+		if gc == nil { // no connection has taken over the duplicated fd
+			unix.Close(dupFD) //nolint:errcheck
+		}
+	}()
 
 	if cli.opts.SocketSendBuffer > 0 {
 		if err = socket.SetSendBuffer(dupFD, cli.opts.SocketSendBuffer); err != nil {
@@ -233,10 +239,7 @@ func (cli *Client) EnrollContext(c net.Conn, ctx any) (Conn, error) {
 	}
 
 	el := cli.eng.eventLoops.next(nil)
-	var (
-		sockAddr unix.Sockaddr
-		gc       *conn
-	)
+	var sockAddr unix.Sockaddr
 	switch c.(type) {
 	case *net.UnixConn:
 		sockAddr, _, _, err = socket.GetUnixSockAddr(c.RemoteAddr().Network(), c.RemoteAddr().String())
